@@ -347,6 +347,23 @@ Utf8Step(u, b) ==
     [] u = "f4" -> IF c = "x8" THEN "2" ELSE "bad"
 Utf8Valid(bytes) == FoldLeft(Utf8Step, "", bytes) = ""
 
+\* ---- lossy repair of invalid UTF-8 (String::from_utf8_lossy: every maximal invalid subpart -> U+FFFD) ----
+\* state: <<automaton state, pending bytes of the current sequence, output>>
+FFFD == <<239, 191, 189>>
+LossyStep(acc, b) ==
+  LET u == acc[1]  pend == acc[2]  out == acc[3]
+      startOf(x, o) ==           \* process x as the first byte of a sequence, output so far o
+        LET n == Utf8Step("", x) IN
+        IF n = "bad" THEN <<"", <<>>, o \o FFFD>>
+        ELSE IF n = "" THEN <<"", <<>>, Append(o, x)>>
+        ELSE <<n, <<x>>, o>>
+  IN IF u = "" THEN startOf(b, out)
+     ELSE LET n == Utf8Step(u, b) IN
+          IF n = "bad" THEN startOf(b, out \o FFFD)                \* truncated sequence -> one U+FFFD, then b afresh
+          ELSE IF n = "" THEN <<"", <<>>, out \o Append(pend, b)>>
+          ELSE <<n, Append(pend, b), out>>
+LossyRepair(bytes) == LET r == FoldLeft(LossyStep, <<"", <<>>, <<>>>>, bytes) IN IF r[1] = "" THEN r[3] ELSE r[3] \o FFFD
+
 \* ---- value helpers (shared by JsonValue / LazyGet / ...) ----
 RECURSIVE Strip(_)
 \* forget spans and escape flags: the reference data model of C03
